@@ -43,6 +43,18 @@ def pipeline_case(draw, ctx):
     return case
 
 
+@st.composite
+def long_case(draw, ctx):
+    """the upper end of the claimed ranges: 33..60 points x n in 40..64 (recreated series of 1300..3800 samples)"""
+    case = draw(rfagen.rfa_case(ctx, m_lo=33, m_hi=60, n_hi=64, xkinds=["unit", "fstep", "hours", "motif", "epoch"],
+                                ykinds=["int", "dyadic", "ties", "sign"]))
+    case["n"] = draw(st.integers(40, 64))
+    case["kw"] = {k: v for k, v in case["kw"].items() if k != "a"}
+    case["rule"] = draw(st.sampled_from(["trapezoid", "rectangle"]))
+    case["append"] = draw(st.sampled_from([None, True, False]))
+    return case
+
+
 def run_pipeline(x, y, case):
     w = Weaver(x, y)
     if case.get("append") is not None:
@@ -145,6 +157,8 @@ SUBCHECKS = [
     Sub("pipeline", "hyp", pipeline_body, strategy=pipeline_case, quick=1200, thorough=32000,
         clause="mean over every original interval equals the original average; rectangle: block averaging returns "
                "the abscissae exactly and the averages to rounding"),
+    Sub("long", "hyp", pipeline_body, strategy=long_case, quick=24, thorough=600,
+        clause="same at the upper end of the claimed ranges (33..60 points, n 40..64: thousands of samples)"),
     Sub("datasets", "enum", dataset_body_wrapped, cases=dataset_cases, shards=16, exhaustive=True,
         clause="same on every bundled dataset x strategy x n x rule"),
 ]
